@@ -16,7 +16,7 @@ CONSTANTS PROPS        \* set of property ids whose clauses are evaluated, e.g. 
 
 Session == {"OPENSENT", "OPENCONFIRM", "ESTABLISHED"}
 Up == {"OPENCONFIRM", "ESTABLISHED"}
-PeerMsg == {"OPEN_OK", "OPEN_BADVER", "OPEN_BADAS", "OPEN_BADHOLD", "OPEN_SHORT", "KA", "KA_BODY", "UPD", "UPD_BAD",
+PeerMsg == {"OPEN_ANY", "OPEN_OK", "OPEN_BADVER", "OPEN_BADAS", "OPEN_BADHOLD", "OPEN_SHORT", "KA", "KA_BODY", "UPD", "UPD_BAD",
             "NOTIF_VER", "NOTIF", "NOTIF_SHORT", "RR", "RR_BAD", "HDR_MARKER", "HDR_LEN", "HDR_TYPE", "DATA",
             "FUZZ_OPEN", "FUZZ_UPD", "FUZZ_NOTIF", "FUZZ_RR", "FUZZ_KA", "FUZZ_RAW", "PROBE", "UPD_AS"}
 TimerEv == {"T_CR", "T_HOLD", "T_KA", "T_IDLE", "T_DUE"}
@@ -92,6 +92,12 @@ C01_Table(r, stopped) ==
          (CASE p = "OPENSENT" -> r.st = "OPENCONFIRM" /\ Outs(r) = <<<<"KEEPALIVE", 0, 0>>>> /\ r.out[1].c = r.ptr /\ NoClose(r) /\ r.att = 0
             [] p = "OPENCONFIRM" -> Ignored(r) \/ IsErr(r, 5, -1) \/ IsErr(r, 6, -1)
             [] OTHER -> IsErr(r, 5, -1) \/ IsErr(r, 6, -1))
+     \* an OPEN of arbitrary content (well framed, at least the minimum length): accepted, or answered with an OPEN Message
+     \* Error / header length error - never dropped; later states as for any OPEN
+     [] c = "OPEN_ANY" ->
+         (CASE p = "OPENSENT" -> (r.st = "OPENCONFIRM" /\ Outs(r) = <<<<"KEEPALIVE", 0, 0>>>> /\ NoClose(r)) \/ IsErr(r, 2, -1) \/ IsErr(r, 1, 2)
+            [] p = "OPENCONFIRM" -> Ignored(r) \/ IsErr(r, 5, -1) \/ IsErr(r, 6, -1) \/ IsErr(r, 2, -1) \/ IsErr(r, 1, 2)
+            [] OTHER -> IsErr(r, 5, -1) \/ IsErr(r, 6, -1) \/ IsErr(r, 2, -1) \/ IsErr(r, 1, 2))
      [] c = "OPEN_BADVER" -> IF p = "OPENSENT" THEN IsErr(r, 2, 1) ELSE (IsErr(r, 2, 1) \/ IsErr(r, 5, -1) \/ (p = "OPENCONFIRM" /\ Ignored(r)))
      [] c = "OPEN_BADAS" -> IF p = "OPENSENT" THEN IsErr(r, 2, 2) ELSE (IsErr(r, 2, 2) \/ IsErr(r, 5, -1) \/ (p = "OPENCONFIRM" /\ Ignored(r)))
      [] c = "OPEN_BADHOLD" -> IF p = "OPENSENT" THEN IsErr(r, 2, 6) ELSE (IsErr(r, 2, 6) \/ IsErr(r, 5, -1) \/ (p = "OPENCONFIRM" /\ Ignored(r)))
